@@ -3041,11 +3041,19 @@ impl<'a, 'ast> Typecheck<'a, 'ast> {
                             2 => (
                                 Some(match args[0].value {
                                     Expr::Ident(ref id) => id.name.clone(),
-                                    _ => unreachable!(),
+                                    _ => {
+                                        return Some(Err(TypeError::Message(
+                                            "`convert_effect!` expects an identifier as its first argument when it is given two arguments".to_string(),
+                                        )));
+                                    }
                                 }),
                                 self.infer_expr(&mut args[1]).concrete,
                             ),
-                            _ => unreachable!(),
+                            _ => {
+                                return Some(Err(TypeError::Message(
+                                    "`convert_effect!` expects 1 or 2 arguments".to_string(),
+                                )));
+                            }
                         };
 
                         let unaliased = self.remove_aliases(typ.clone());
